@@ -2334,6 +2334,552 @@ print(main())
 """, tape=8)
 
 
+# ---- numpy rules: executed with the REAL numpy on object arrays whose entries are proxies (dtype=object keeps Python's
+# integer arithmetic element by element; fixed-width overflow is outside the claim). Results are printed as lists.
+_NP = "import numpy as np\n\n\n"
+_add("performance_numpy.replace_implicit_dot", "sum-list-and-generator", _NP + """
+def main(p, q, r):
+    a = np.array([p, q, 7000], dtype=object)
+    b = np.array([r, 2, p], dtype=object)
+    c = sum([a_ * b_ for a_, b_ in zip(a, b)])
+    d = np.sum(a_ * b_ for a_, b_ in zip(a, b))
+    return c, d
+
+
+print(main(inp(), inp(), inp()))
+""")
+_add("performance_numpy.replace_implicit_dot", "unequal-lengths", _NP + """
+def main(p, q, r):
+    a = np.array([p, q, 3], dtype=object)
+    b = np.array([r, 2], dtype=object)
+    return sum(x * y for x, y in zip(a, b))
+
+
+print(main(inp(), inp(), inp()))
+""")
+_add("performance_numpy.replace_implicit_dot", "plain-lists", _NP + """
+def main(p, q, r):
+    a = [p, q, 1]
+    b = [r, 2, p]
+    return sum([x * y for x, y in zip(a, b)]) + np.dot(a, b)
+
+
+print(main(inp(), inp(), inp()))
+""")
+_add("performance_numpy.replace_implicit_dot", "swapped-factors-and-filter", _NP + """
+def main(p, q, r):
+    a = np.array([p, q, 1], dtype=object)
+    b = np.array([r, 2, p], dtype=object)
+    swapped = sum(y * x for x, y in zip(a, b))
+    filtered = sum(x * y for x, y in zip(a, b) if x > 0)
+    three = sum(x * y for x, y in zip(a, b, a))
+    return swapped, filtered, three
+
+
+print(main(inp(), inp(), inp()))
+""")
+_add("performance_numpy.replace_implicit_dot", "two-dimensional-rows", _NP + """
+def main(p, q, r):
+    a = np.array([[p, q], [r, 1]], dtype=object)
+    b = np.array([[1, p], [q, 2]], dtype=object)
+    return sum(x * y for x, y in zip(a, b)).tolist()
+
+
+print(main(inp(), inp(), inp()))
+""")
+_add("performance_numpy.replace_implicit_dot", "start-value-and-empty", _NP + """
+def main(p, q):
+    a = np.array([p, q], dtype=object)
+    e = np.array([], dtype=object)
+    return sum((x * y for x, y in zip(a, a)), 5), sum([x * y for x, y in zip(e, e)])
+
+
+print(main(inp(), inp()))
+""")
+_add("performance_numpy.simplify_matmul_transposes", "square", _NP + """
+def main(p, q, r):
+    a = np.array([[p, 7000], [q, r]], dtype=object)
+    b = np.array([[1, p], [q, 2]], dtype=object)
+    return np.matmul(a.T, b.T).T.tolist()
+
+
+print(main(inp(), inp(), inp()))
+""")
+_add("performance_numpy.simplify_matmul_transposes", "rectangular", _NP + """
+def main(p, q, r):
+    a = np.array([[p, 1, q], [q, r, 2]], dtype=object)
+    b = np.array([[1, p], [q, 2], [r, r]], dtype=object)
+    return np.matmul(a.T, b.T).T.tolist(), np.matmul(b.T, a.T).T.tolist()
+
+
+print(main(inp(), inp(), inp()))
+""")
+_add("performance_numpy.simplify_matmul_transposes", "one-side-only-and-double", _NP + """
+def main(p, q, r):
+    a = np.array([[p, 1], [q, r]], dtype=object)
+    b = np.array([[1, p], [q, 2]], dtype=object)
+    one = np.matmul(a.T, b).T
+    two = np.matmul(a.T.T, b.T).T
+    three = np.matmul(a.T, b.T)
+    return one.tolist(), two.tolist(), three.tolist()
+
+
+print(main(inp(), inp(), inp()))
+""")
+_add("performance_numpy.simplify_matmul_transposes", "vector-operand", _NP + """
+def main(p, q, r):
+    a = np.array([[p, 1], [q, r]], dtype=object)
+    v = np.array([p, r], dtype=object)
+    return np.matmul(a.T, v.T).T.tolist(), np.matmul(v.T, a.T).T.tolist()
+
+
+print(main(inp(), inp(), inp()))
+""")
+_add("performance_numpy.simplify_matmul_transposes", "zip-star-transpose", _NP + """
+def main(p, q, r):
+    a = np.array([[p, 1], [q, r]], dtype=object)
+    b = np.array([[1, p], [q, 2]], dtype=object)
+    rows = [list(row) for row in zip(*np.matmul(a.T, b.T))]
+    return rows
+
+
+print(main(inp(), inp(), inp()))
+""")
+_add("performance_numpy.simplify_matmul_transposes", "numpy-alias-and-three-args", """import numpy
+
+
+def main(p, q, r):
+    a = numpy.array([[p, 1], [q, r]], dtype=object)
+    b = numpy.array([[1, p], [q, 2]], dtype=object)
+    out = numpy.empty((2, 2), dtype=object)
+    numpy.matmul(a.T, b.T, out).T
+    return numpy.matmul(a.T, b.T).T.tolist(), out.tolist()
+
+
+print(main(inp(), inp(), inp()))
+""")
+_add("performance_numpy.replace_implicit_matmul", "triple-loop-zeros", _NP + """
+def main(p, q, r):
+    a = np.array([[p, 1, q], [q, r, 2]], dtype=object)
+    b = np.array([[1, p], [q, 2], [r, r]], dtype=object)
+    c = np.zeros((2, 2), dtype=object)
+    for i in range(len(a)):
+        for j in range(len(b[0])):
+            for k in range(len(b)):
+                c[i][j] += a[i][k] * b[k][j]
+    return c.tolist()
+
+
+print(main(inp(), inp(), inp()))
+""")
+_add("performance_numpy.replace_implicit_matmul", "triple-loop-accumulates-onto-nonzero", _NP + """
+def main(p, q, r):
+    a = np.array([[p, 1], [q, r]], dtype=object)
+    b = np.array([[1, p], [q, 2]], dtype=object)
+    c = np.array([[r, 0], [0, 1]], dtype=object)
+    for i in range(len(a)):
+        for j in range(len(b[0])):
+            for k in range(len(b)):
+                c[i][j] += a[i][k] * b[k][j]
+    return c.tolist()
+
+
+print(main(inp(), inp(), inp()))
+""")
+_add("performance_numpy.replace_implicit_matmul", "triple-loop-nested-lists", _NP + """
+def main(p, q, r):
+    a = [[p, 1], [q, r]]
+    b = [[1, p], [q, 2]]
+    c = [[0, 0], [0, 0]]
+    for i in range(len(a)):
+        for j in range(len(b[0])):
+            for k in range(len(b)):
+                c[i][j] += a[i][k] * b[k][j]
+    return [list(row) for row in c]
+
+
+print(main(inp(), inp(), inp()))
+""")
+_add("performance_numpy.replace_implicit_matmul", "triple-loop-alias-of-result", _NP + """
+def main(p, q, r):
+    a = np.array([[p, 1], [q, r]], dtype=object)
+    b = np.array([[1, p], [q, 2]], dtype=object)
+    c = np.zeros((2, 2), dtype=object)
+    view = c
+    for i in range(len(a)):
+        for j in range(len(b[0])):
+            for k in range(len(b)):
+                c[i][j] += a[i][k] * b[k][j]
+    return view.tolist()
+
+
+print(main(inp(), inp(), inp()))
+""")
+_add("performance_numpy.replace_implicit_matmul", "triple-loop-variables-read-afterwards", _NP + """
+def main(p, q, r):
+    a = np.array([[p, 1], [q, r]], dtype=object)
+    b = np.array([[1, p], [q, 2]], dtype=object)
+    c = np.zeros((2, 2), dtype=object)
+    for i in range(len(a)):
+        for j in range(len(b[0])):
+            for k in range(len(b)):
+                c[i][j] += a[i][k] * b[k][j]
+    return c.tolist(), i, j, k
+
+
+print(main(inp(), inp(), inp()))
+""")
+_add("performance_numpy.replace_implicit_matmul", "comprehension-sum", _NP + """
+def main(p, q, r):
+    a = np.array([[p, 1, q], [q, r, 2]], dtype=object)
+    b = np.array([[1, p], [q, 2], [r, r]], dtype=object)
+    c = [[sum(a[i][k] * b[k][j] for k in range(len(b))) for j in range(len(b[0]))] for i in range(len(a))]
+    return [list(row) for row in c]
+
+
+print(main(inp(), inp(), inp()))
+""")
+_add("performance_numpy.replace_implicit_matmul", "dot-rows-by-rows", _NP + """
+def main(p, q, r):
+    a = np.array([[p, 1, q], [q, r, 2]], dtype=object)
+    b = np.array([[1, p, 0], [q, 2, r]], dtype=object)
+    m = [[np.dot(x, y) for x in a] for y in b]
+    return [list(row) for row in m]
+
+
+print(main(inp(), inp(), inp()))
+""")
+_add("performance_numpy.replace_implicit_matmul", "dot-cols-by-cols", _NP + """
+def main(p, q, r):
+    a = np.array([[p, 1, q], [q, r, 2]], dtype=object)
+    b = np.array([[1, p, 0], [q, 2, r]], dtype=object)
+    m = [[np.dot(x, y) for x in a.T] for y in b.T]
+    return [list(row) for row in m]
+
+
+print(main(inp(), inp(), inp()))
+""")
+_add("performance_numpy.replace_implicit_matmul", "dot-cols-by-triple-transpose", _NP + """
+def main(p, q, r):
+    a = np.array([[p, 1, q], [q, r, 2]], dtype=object)
+    b = np.array([[1, p, 0], [q, 2, r]], dtype=object)
+    m = [[np.dot(x, y) for x in a.T] for y in b.T.T.T]
+    return [list(row) for row in m]
+
+
+print(main(inp(), inp(), inp()))
+""")
+_add("performance_numpy.replace_implicit_matmul", "dot-rows-by-double-transpose", _NP + """
+def main(p, q, r):
+    a = np.array([[p, 1, q], [q, r, 2]], dtype=object)
+    b = np.array([[1, p, 0], [q, 2, r]], dtype=object)
+    m = [[np.dot(x, y) for x in a] for y in b.T.T]
+    return [list(row) for row in m]
+
+
+print(main(inp(), inp(), inp()))
+""")
+_add("performance_numpy.replace_implicit_matmul", "dot-square-rows-by-rows", _NP + """
+def main(p, q, r):
+    a = np.array([[p, 1], [q, r]], dtype=object)
+    b = np.array([[1, p], [q, 2]], dtype=object)
+    m = [[np.dot(x, y) for x in a] for y in b]
+    return [list(row) for row in m]
+
+
+print(main(inp(), inp(), inp()))
+""")
+_add("performance_numpy.replace_implicit_matmul", "dot-square-rows-by-cols", _NP + """
+def main(p, q, r):
+    a = np.array([[p, 1], [q, r]], dtype=object)
+    b = np.array([[1, p], [q, 2]], dtype=object)
+    m = [[np.dot(x, y) for x in a] for y in b.T]
+    return [list(row) for row in m]
+
+
+print(main(inp(), inp(), inp()))
+""")
+_add("performance_numpy.replace_implicit_matmul", "dot-square-cols-by-rows", _NP + """
+def main(p, q, r):
+    a = np.array([[p, 1], [q, r]], dtype=object)
+    b = np.array([[1, p], [q, 2]], dtype=object)
+    m = [[np.dot(x, y) for x in a.T] for y in b]
+    return [list(row) for row in m]
+
+
+print(main(inp(), inp(), inp()))
+""")
+_add("performance_numpy.replace_implicit_matmul", "dot-rect-rows-by-cols", _NP + """
+def main(p, q, r):
+    a = np.array([[p, 1, q], [q, r, 2]], dtype=object)
+    c = np.array([[1, p], [q, 2], [r, 0]], dtype=object)
+    m = [[np.dot(x, y) for x in a] for y in c.T]
+    return [list(row) for row in m]
+
+
+print(main(inp(), inp(), inp()))
+""")
+_add("performance_numpy.replace_implicit_matmul", "dot-rect-cols-by-rows", _NP + """
+def main(p, q, r):
+    a = np.array([[p, 1, q], [q, r, 2]], dtype=object)
+    c = np.array([[1, p], [q, 2], [r, 0]], dtype=object)
+    m = [[np.dot(x, y) for x in a.T] for y in c]
+    return [list(row) for row in m]
+
+
+print(main(inp(), inp(), inp()))
+""")
+_add("performance_numpy.replace_implicit_matmul", "index-b-cols-a-rows", _NP + """
+def main(p, q, r):
+    a = np.array([[p, 1, q], [q, r, 2]], dtype=object)
+    b = np.array([[1, p], [q, 2], [r, r]], dtype=object)
+    c = np.array([[1, q, 0], [p, 2, r], [0, 1, 1], [q, q, 1]], dtype=object)
+    d = np.array([[1, p, 0, 1], [r, 2, q, 0], [q, 1, 1, p]], dtype=object)
+    m = np.array([[np.dot(b[:, bi], a[ai, :]) for bi in range(b.shape[1])] for ai in range(a.shape[0])])
+    return m.tolist()
+
+
+print(main(inp(), inp(), inp()))
+""")
+_add("performance_numpy.replace_implicit_matmul", "index-c-rows-a-rows", _NP + """
+def main(p, q, r):
+    a = np.array([[p, 1, q], [q, r, 2]], dtype=object)
+    b = np.array([[1, p], [q, 2], [r, r]], dtype=object)
+    c = np.array([[1, q, 0], [p, 2, r], [0, 1, 1], [q, q, 1]], dtype=object)
+    d = np.array([[1, p, 0, 1], [r, 2, q, 0], [q, 1, 1, p]], dtype=object)
+    m = np.array([[np.dot(c[ci, :], a[ai, :]) for ci in range(c.shape[0])] for ai in range(a.shape[0])])
+    return m.tolist()
+
+
+print(main(inp(), inp(), inp()))
+""")
+_add("performance_numpy.replace_implicit_matmul", "index-b-cols-d-cols", _NP + """
+def main(p, q, r):
+    a = np.array([[p, 1, q], [q, r, 2]], dtype=object)
+    b = np.array([[1, p], [q, 2], [r, r]], dtype=object)
+    c = np.array([[1, q, 0], [p, 2, r], [0, 1, 1], [q, q, 1]], dtype=object)
+    d = np.array([[1, p, 0, 1], [r, 2, q, 0], [q, 1, 1, p]], dtype=object)
+    m = np.array([[np.dot(b[:, bi], d[:, di]) for bi in range(b.shape[1])] for di in range(d.shape[1])])
+    return m.tolist()
+
+
+print(main(inp(), inp(), inp()))
+""")
+_add("performance_numpy.replace_implicit_matmul", "index-a-rows-b-cols", _NP + """
+def main(p, q, r):
+    a = np.array([[p, 1, q], [q, r, 2]], dtype=object)
+    b = np.array([[1, p], [q, 2], [r, r]], dtype=object)
+    c = np.array([[1, q, 0], [p, 2, r], [0, 1, 1], [q, q, 1]], dtype=object)
+    d = np.array([[1, p, 0, 1], [r, 2, q, 0], [q, 1, 1, p]], dtype=object)
+    m = np.array([[np.dot(a[ai, :], b[:, bi]) for ai in range(a.shape[0])] for bi in range(b.shape[1])])
+    return m.tolist()
+
+
+print(main(inp(), inp(), inp()))
+""")
+
+
+# ---- pandas rules: executed against the vendored reference shim shims/pandas.py (pandas itself is not available in
+# this sandbox); frames are small dicts of lists whose entries are run-time inputs
+_PD = "import pandas as pd\n\n\n"
+_add("performance_pandas.replace_loc_at_iloc_iat", "frame-two-keys", _PD + """
+def main(p, q):
+    df = pd.DataFrame({"a": [p, q, 3], "b": [q, 7000, p]})
+    return df.loc[1, "b"], df.iloc[2, 0], df.loc[0, "a"] + df.iloc[-1, -1]
+
+
+print(main(inp(), inp()))
+""")
+_add("performance_pandas.replace_loc_at_iloc_iat", "frame-assignment", _PD + """
+def main(p, q):
+    df = pd.DataFrame({"a": [p, q, 3], "b": [q, 2, p]})
+    df.loc[1, "b"] = p + 10
+    df.iloc[0, 0] = q - 10
+    df.loc[2, "a"] += 1
+    return df.to_dict()
+
+
+print(main(inp(), inp()))
+""")
+_add("performance_pandas.replace_loc_at_iloc_iat", "labelled-index", _PD + """
+def main(p, q):
+    df = pd.DataFrame({"a": [p, q, 3], "b": [q, 2, p]}, index=["x", "y", "z"])
+    return df.loc["y", "a"], df.iloc[1, 1], df.loc["z", "b"]
+
+
+print(main(inp(), inp()))
+""")
+_add("performance_pandas.replace_loc_at_iloc_iat", "series-one-key", _PD + """
+def main(p, q):
+    s = pd.Series([p, q, 3], index=[10, 20, 30])
+    return s.loc[20], s.iloc[0], s.iloc[-1] + s.loc[10]
+
+
+print(main(inp(), inp()))
+""")
+_add("performance_pandas.replace_loc_at_iloc_iat", "frame-one-key-gives-row", _PD + """
+def main(p, q):
+    df = pd.DataFrame({"a": [p, q, 3], "b": [q, 2, p]})
+    return df.loc[1].tolist(), df.iloc[0].tolist()
+
+
+print(main(inp(), inp()))
+""")
+_add("performance_pandas.replace_loc_at_iloc_iat", "variable-and-slice-keys-untouched", _PD + """
+def main(p, q):
+    df = pd.DataFrame({"a": [p, q, 3], "b": [q, 2, p]})
+    i = 1
+    col = "b"
+    return df.loc[i, col], df.iloc[i, 0], df.loc[-1 + 1, "a"]
+
+
+print(main(inp(), inp()))
+""")
+_add("performance_pandas.replace_loc_at_iloc_iat", "missing-label", _PD + """
+def main(p, q):
+    df = pd.DataFrame({"a": [p, q], "b": [q, 2]})
+    try:
+        return df.loc[5, "a"]
+    except KeyError:
+        return "missing"
+
+
+print(main(inp(), inp()))
+""")
+_add("performance_pandas.replace_iterrows_index", "for-loop", _PD + """
+def main(p, q):
+    df = pd.DataFrame({"a": [p, q, 3]}, index=[5, 6, 7000])
+    out = []
+    for i, _ in df.iterrows():
+        out.append(i)
+        out.append(df.loc[i, "a"])
+    return out
+
+
+print(main(inp(), inp()))
+""")
+_add("performance_pandas.replace_iterrows_index", "comprehension-and-row-used", _PD + """
+def main(p, q):
+    df = pd.DataFrame({"a": [p, q, 3]}, index=["x", "y", "z"])
+    labels = [i for i, _ in df.iterrows()]
+    pairs = [(i, row["a"]) for i, row in df.iterrows()]
+    return labels, pairs
+
+
+print(main(inp(), inp()))
+""")
+_add("performance_pandas.replace_iterrows_index", "frame-grows-in-loop", _PD + """
+def main(p, q):
+    df = pd.DataFrame({"a": [p, q, 3]})
+    seen = []
+    for i, _ in df.iterrows():
+        seen.append(i)
+        df.loc[i, "a"] = 0
+    return seen, df.to_dict()
+
+
+print(main(inp(), inp()))
+""")
+_add("performance_pandas.replace_iterrows_itertuples", "column-by-name", _PD + """
+def main(p, q):
+    df = pd.DataFrame({"a": [p, q, 3], "b": [q, 2, p]})
+    total = 0
+    for _, row in df.iterrows():
+        total += row["a"] * row["b"]
+    return total
+
+
+print(main(inp(), inp()))
+""")
+_add("performance_pandas.replace_iterrows_itertuples", "at-and-iat", _PD + """
+def main(p, q):
+    df = pd.DataFrame({"a": [p, q, 3], "b": [q, 2, p]})
+    out = []
+    for _, row in df.iterrows():
+        out.append(row.at["b"] - row.iat[0])
+        out.append(row.iat[1])
+    return out
+
+
+print(main(inp(), inp()))
+""")
+_add("performance_pandas.replace_iterrows_itertuples", "negative-iat", _PD + """
+def main(p, q):
+    df = pd.DataFrame({"a": [p, q, 3], "b": [q, 2, p]})
+    out = []
+    for _, row in df.iterrows():
+        out.append(row.iat[-1])
+    return out
+
+
+print(main(inp(), inp()))
+""")
+_add("performance_pandas.replace_iterrows_itertuples", "row-modified-or-passed-on", _PD + """
+def show(row):
+    return row.tolist()
+
+
+def main(p, q):
+    df = pd.DataFrame({"a": [p, q, 3], "b": [q, 2, p]})
+    out = []
+    for _, row in df.iterrows():
+        row["a"] = 0
+        out.append(row["b"])
+    for _, row in df.iterrows():
+        out.append(show(row))
+    for _, row in df.iterrows():
+        key = "a"
+        out.append(row[key])
+    return out
+
+
+print(main(inp(), inp()))
+""")
+_add("performance_pandas.replace_iterrows_itertuples", "odd-column-names", _PD + """
+def main(p, q):
+    df = pd.DataFrame({"_hidden": [p, q], "two words": [q, 2], "class": [1, p]})
+    out = []
+    for _, row in df.iterrows():
+        out.append(row["_hidden"])
+    for _, row in df.iterrows():
+        out.append(row["two words"])
+    for _, row in df.iterrows():
+        out.append(row["class"])
+    return out
+
+
+print(main(inp(), inp()))
+""")
+_add("performance_pandas.replace_iterrows_itertuples", "column-named-index-or-count", _PD + """
+def main(p, q):
+    df = pd.DataFrame({"Index": [p, q], "count": [q, 2]}, index=[7, 8])
+    out = []
+    for _, row in df.iterrows():
+        out.append(row["Index"])
+    for _, row in df.iterrows():
+        out.append(row["count"])
+    return out
+
+
+print(main(inp(), inp()))
+""")
+_add("performance_pandas.replace_iterrows_itertuples", "row-name-used-after-loop-and-else", _PD + """
+def main(p, q):
+    df = pd.DataFrame({"a": [p, q, 3]})
+    total = 0
+    for _, row in df.iterrows():
+        if row["a"] > 2:
+            break
+        total += row["a"]
+    else:
+        total += 100
+    return total, row["a"]
+
+
+print(main(inp(), inp()))
+""")
+
+
 def skeletons():
     out = []
     for rule in sorted(P):
